@@ -10,4 +10,5 @@ let () =
   | _ :: "leak" :: _ -> R_leak.run ()
   | _ :: "joint" :: _ -> R_joint.run ()
   | _ :: "exc" :: _ -> R_exc.run ()
+  | _ :: "thread" :: _ -> R_thread.run ()
   | _ -> prerr_endline "usage: replay <topic> [args]"; exit 2
